@@ -137,7 +137,8 @@ class Engine:
                 "wav": WaveAudioSource(wavp),
                 "stdin": StdinAudioSource(sr, sw, ch),
             }
-            sys.stdin = old_stdin
+            # (sys.stdin stays the simulated pipe for the whole run: a source
+            # may look it up at open() time rather than at construction)
             for k, s in srcs.items():
                 if (s.sr, s.sw, s.ch) != (sr, sw, ch):
                     return V("C11.1", "%s source reports format %r" % (
@@ -167,9 +168,11 @@ class Engine:
                         # adopt what the source reports
                         m["cur"] = s.position
                     if name == "open":
-                        if m["ever_closed"] and kind != "buffer":
-                            m["live"] = False  # reopen of file/stdin: not judged
+                        if m["ever_closed"] and kind in ("raw", "wav"):
+                            m["live"] = False  # reopening a file: not judged
                             continue
+                        # (standard input cannot be rewound: a reopened stdin
+                        # source simply goes on where the stream stands)
                         r = call(s.open)
                         if r[0] == "exc":
                             return V("C11.2", "%s.open() raised %r" % (
